@@ -12,4 +12,5 @@ CONSTANTS
   Locs <- LocBoth
   FailSet <- FailPtr
   SysVals <- SysBoth
+  TestReqs <- PtrTestReqs
 INVARIANTS TypeOK StoredValid Decided
